@@ -353,4 +353,126 @@ def carryRec : Rec :=
 example : normRec carryRec = { issRec with yy := 24, day8 := 100000000, inc4 := 0, ndd := .zero, bstar := .small false 123 } := by decide
 
 
+/-! ## from the doubles of an orbit to the text, and on -/
+
+/-- **the domain of the writer** ("any orbit that can be written"), on the numbers handed to `str.format`: angles in
+`[0, 360]` (what `% 360` returns), an eccentricity that passes the `startswith("0.")` guard, a mean motion and an ṅ/2 that
+fit their columns once rounded, drag terms that fit their eight columns, a UTC epoch in 1957–2056, counters and
+identifiers inside their columns -/
+structure QDomain (o : QOrb) : Prop where
+  dens : 0 < o.inc.den ∧ 0 < o.raan.den ∧ 0 < o.ecc.den ∧ 0 < o.argp.den ∧ 0 < o.ma.den ∧ 0 < o.mm.den ∧ 0 < o.ndot.den
+  inc : 0 ≤ o.inc.num ∧ o.inc.num ≤ 360 * o.inc.den
+  raan : 0 ≤ o.raan.num ∧ o.raan.num ≤ 360 * o.raan.den
+  argp : 0 ≤ o.argp.num ∧ o.argp.num ≤ 360 * o.argp.den
+  ma : 0 ≤ o.ma.num ∧ o.ma.num ≤ 360 * o.ma.den
+  ecc : 0 ≤ o.ecc.num ∧ fixQ 7 o.ecc < 10000000
+  mm : 0 ≤ o.mm.num ∧ fixQ 8 o.mm < 10000000000
+  ndot : 0 ≤ o.ndot.num ∧ fixQ 8 o.ndot < 100000000
+  ndd : WideUnfl (unflQ o.nddNeg o.ndd)
+  bstar : WideUnfl (unflQ o.bstarNeg o.bstar)
+  epoch : ∃ Y us : Nat, 1957 ≤ Y ∧ Y ≤ 2056 ∧ us < (if Sgp4Wrap.isLeap Y then 366 else 365) * 86400000000 ∧
+    o.dateUs - o.offsetUs = absOfYear Y us
+  norad : 0 ≤ o.norad ∧ o.norad < 100000
+  cospar : o.cospar = [] ∨ ∃ cy piece, cy < 100 ∧ o.cospar = fixedDigits 2 cy ++ piece ∧ piece.length ≤ 6 ∧
+    strip piece = piece ∧ ∀ c ∈ piece, (ckVal c).isSome = true
+  elnb : 0 ≤ o.elnb ∧ o.elnb < 10000
+  revs : 0 ≤ o.revs ∧ o.revs < 100000
+  name : o.name = [] ∨ (o.name ≠ [] ∧ strip o.name = o.name ∧ startsWith o.name ['0', ' '] = false)
+
+theorem toNat_le_of_le {a : Int} {b : Nat} (h : a ≤ b) : a.toNat ≤ b := by omega
+theorem toNat_lt_of_lt {a : Int} {b : Nat} (hb : 0 < b) (h : a < b) : a.toNat < b := by omega
+
+/-- whatever the rounding makes of an orbit in the writer's domain is a record the writer can print -/
+theorem quantize_wide (o : QOrb) (h : QDomain o) : WideRange (quantize o) := by
+  obtain ⟨d1, d2, d3, d4, d5, d6, d7⟩ := h.dens
+  obtain ⟨Y, us, hY1, hY2, hus, ht⟩ := h.epoch
+  obtain ⟨e1, e2, e3, _, _, _⟩ := epoch_within_half_unit Y us hY1 hY2 hus
+  have hyy : (epochOfAbs (o.dateUs - o.offsetUs)).1 < 100 := by
+    unfold epochOfAbs; exact Nat.mod_lt _ (by omega)
+  refine ⟨h.norad, h.cospar, hyy, ?_, ?_, h.ndd, h.bstar, h.elnb, ?_, ?_, ?_, ?_, ?_, ?_, h.revs, h.name⟩
+  · show 100000000 ≤ (epochOfAbs (o.dateUs - o.offsetUs)).2 ∧ (epochOfAbs (o.dateUs - o.offsetUs)).2 ≤ (if isLeap (fullYear (epochOfAbs (o.dateUs - o.offsetUs)).1) then 367 else 366) * 100000000
+    rw [ht, e1]; exact ⟨e2, e3⟩
+  · exact toNat_lt_of_lt (by omega) h.ndot.2
+  · exact toNat_le_of_le (angle_grid_range _ d1 h.inc.1 h.inc.2).2
+  · exact toNat_le_of_le (angle_grid_range _ d2 h.raan.1 h.raan.2).2
+  · exact toNat_lt_of_lt (by omega) h.ecc.2
+  · exact toNat_le_of_le (angle_grid_range _ d4 h.argp.1 h.argp.2).2
+  · exact toNat_le_of_le (angle_grid_range _ d5 h.ma.1 h.ma.2).2
+  · exact toNat_lt_of_lt (by omega) h.mm.2
+
+theorem nonNegQ_of_domain (o : QOrb) (h : QDomain o) : nonNegQ o = true ∧ ¬ o.ecc.num < 0 := by
+  obtain ⟨Y, us, _, _, _, ht⟩ := h.epoch
+  have hd : 0 ≤ o.dateUs - o.offsetUs := by
+    rw [ht, absOfYear_eq]
+    have : (0 : Int) ≤ (Sgp4Wrap.daysBeforeYear Y : Int) * 86400000000 := Int.mul_nonneg (by omega) (by omega)
+    omega
+  refine ⟨?_, by have := h.ecc.1; omega⟩
+  simp [nonNegQ, h.inc.1, h.raan.1, h.ecc.1, h.argp.1, h.ma.1, h.mm.1, h.ndot.1]
+  omega
+
+/-- **any orbit that can be written yields lines of exactly 69 characters with correct checksums — off-grid orbits**:
+for EVERY orbit in the writer's domain, whatever doubles it holds, `Tle.from_orbit` returns a `Tle` whose two lines
+have 69 characters, carry their checksums and are accepted by `_check_validity`; every field of the text is the grid
+value nearest to the double that was formatted (`format_within_half_unit`, `epoch_within_half_unit`,
+`drag_five_digits`). -/
+theorem offgrid_written_valid (o : QOrb) (h : QDomain o) :
+    ∃ p l1 l2, fromOrbitQ o = .ok p ∧ tleStr p = (if o.name.isEmpty then [l1, l2] else [o.name, l1, l2]) ∧
+      l1.length = 69 ∧ l2.length = 69 ∧ LineOk l1 ∧ LineOk l2 ∧ checkValidity [l1, l2] = .ok () := by
+  have hw := quantize_wide o h
+  obtain ⟨hn, he⟩ := nonNegQ_of_domain o h
+  obtain ⟨p, lines, hwr, hf, _, hs, _⟩ := wide_roundtrip (quantize o) hw
+  obtain ⟨l1, l2, hw2, a, b, c, d, e⟩ := written_lines_valid (quantize o) hw
+  rw [hwr] at hw2
+  injection hw2 with hl
+  refine ⟨p, l1, l2, ?_, ?_, a, b, c, d, e⟩
+  · unfold fromOrbitQ; rw [if_neg he, if_pos hn]; exact hf
+  · rw [hs, hl]; rfl
+
+/-- **parse ∘ write ∘ parse = parse from the second generation on — off-grid orbits**: write ANY orbit of the writer's
+domain (`t1`), read and write (`t2`), read and write again: `t2` again. -/
+theorem offgrid_three_generations (o : QOrb) (h : QDomain o) :
+    ∃ p1 t1 t2 p2 p3, fromOrbitQ o = .ok p1 ∧ tleStr p1 = t1 ∧ rewrite t1 = .ok p2 ∧ tleStr p2 = t2 ∧
+      rewrite t2 = .ok p3 ∧ tleStr p3 = t2 ∧ (InRange (quantize o) → t2 = t1) := by
+  have hw := quantize_wide o h
+  obtain ⟨hn, he⟩ := nonNegQ_of_domain o h
+  obtain ⟨p1, lines, hwr, hf, _, hs, _⟩ := wide_roundtrip (quantize o) hw
+  obtain ⟨t1, t2, p2, p3, k1, k2, k3, k4, k5, _, k7⟩ := offgrid_idempotent_from_second_generation (quantize o) hw
+  rw [hwr] at k1
+  injection k1 with k1
+  subst k1
+  refine ⟨p1, lines, t2, p2, p3, ?_, hs, k2, k3, k4, k5, k7⟩
+  unfold fromOrbitQ; rw [if_neg he, if_pos hn]; exact hf
+
+/-- the hypotheses are met by an orbit with off-grid doubles: the reference TLE's values moved off the grid (the
+inclination within 5e-5 deg of 360, the last 300 µs of 2023, a drag term of 3e-15) -/
+def offGridOrb : QOrb :=
+  { name := "ISS (ZARYA)".toList, norad := 25544, cospar := "98067A".toList,
+    dateUs := absOfYear 2023 (365 * 86400000000 - 300) + 37000000, offsetUs := 37000000,
+    ndotNeg := true, ndot := ⟨2182, 100000000⟩, nddNeg := true, ndd := ⟨3, 1000000000000000⟩, bstarNeg := true, bstar := ⟨11606, 1000000000⟩,
+    elnb := 2927, inc := ⟨35999996, 100000⟩, raan := ⟨24746274, 100000⟩, ecc := ⟨1, 149⟩, argp := ⟨1, 32⟩, ma := ⟨3250288, 10000⟩,
+    mm := ⟨1572125391, 100000000⟩, revs := 56353 }
+
+example : quantize offGridOrb = { issRec with yy := 23, day8 := 36600000000, inc4 := 3600000, raan4 := 2474627, ecc7 := 67114, argp4 := 312, ndd := .small true 0 } := by decide +kernel
+
+
+/-- … and that orbit is inside the writer's domain -/
+example : QDomain offGridOrb where
+  dens := by decide
+  inc := by decide
+  raan := by decide
+  argp := by decide
+  ma := by decide
+  ecc := by decide
+  mm := by decide
+  ndot := by decide
+  ndd := Or.inr ⟨true, 0, by decide +kernel, by decide⟩
+  bstar := Or.inl (Or.inr ⟨true, 11606, -4, by decide +kernel, by decide, by decide, by decide, by decide⟩)
+  epoch := ⟨2023, 365 * 86400000000 - 300, by decide, by decide, by decide, by decide⟩
+  norad := by decide
+  cospar := Or.inr ⟨98, "067A".toList, by decide, by decide, by decide, by decide, by decide⟩
+  elnb := by decide
+  revs := by decide
+  name := Or.inr ⟨by decide, by decide, by decide⟩
+
+
 end BeyondVerif.C12
